@@ -447,6 +447,8 @@ def main(argv):
     try:
         if argv[0] == "setup":
             return props.setup()
+        if argv[0] == "selftest":
+            return props.selftest()
         if argv[0] == "replay":
             if len(argv) < 3:
                 print("usage: check replay <id> <path>")
